@@ -63,9 +63,12 @@ theorem sortUnstable_perm (lt : α → α → Bool) (l : List α) : (sortUnstabl
 
 theorem sortMatches_perm {E L : Type} (l : List (Match E L)) : (sortMatches l).Perm l := by
   unfold sortMatches
-  have h := sortUnstable_perm (fun (a b : Match.Key × Match E L) => Match.ltKey a.1 b.1)
-    (l.map (fun m => (m.key, m)))
-  have := h.map (·.2)
-  simpa [List.map_map, Function.comp_def] using this
+  simp only []
+  have hid : (l.map (fun m => (m.key, m))).map (·.2) = l := by simp [List.map_map, Function.comp_def]
+  split
+  · have h := (sortUnstable_perm (ltPair (E := E) (L := L)) (l.map (fun m => (m.key, m)))).map (·.2)
+    rwa [hid] at h
+  · have h := (insertionSort_perm (ltPair (E := E) (L := L)) (l.map (fun m => (m.key, m)))).map (·.2)
+    rwa [hid] at h
 
 end Charset
